@@ -12,7 +12,7 @@ PROP = dict(
                        "C23_prelude_unwrap_result_ok", "C23_prelude_unwrap_result_err"],
     harness_bin="c23",
     mismatch_is_violation=True,
-    rule="(1) 52 template programs: `?`/`!` at statement, operand, argument, nested-call, loop+tuple and void-payload position x "
+    rule="(1) 56 template programs (4 of them: functions and a lambda with void-typed parameters - explicit `u: void` first/middle/last/several and a type parameter instantiated with nil and with values - `?` success and failure, `!`, explicit return, implicit result, caller sentinel locals, calls inside operands); the other 52: `?`/`!` at statement, operand, argument, nested-call, loop+tuple and void-payload position x "
          "option/result x inputs {-3,0,2,7}; expected trace of executed statements computed in the harness from the property's own "
          "words (spec_fail on deviation); (2) the real prelude functions Try.branch / Try.from_residual / Unwrap.unwrap called "
          "directly on 22 values vs the transliteration the theorems are about; (3) quick 160 / thorough 4000 generated F2/F3 programs "
